@@ -32,6 +32,14 @@ def run(tier):
         r = tlc_must_pass("c19_%d" % i, "MCArrayApi", cfg, workers=8, timeout=3000)
         rep.add_tlc(r)
         rep.add_replay("array", replay("array", r.replay, "c19_%d" % i))
+    # the array as memory: histories of writes through every mutable access path, everything read back after each
+    # step through every read path (ArrayMem.tla)
+    mem = ["MCArrayMem_quick.cfg", "MCArrayMem_cat.cfg"] if tier == "quick" else ["MCArrayMem_t1.cfg", "MCArrayMem_cat.cfg"]
+    for i, cfg in enumerate(mem):
+        r = tlc_must_pass("c19_mem%d" % i, "MCArrayMem", cfg, workers=4, timeout=3000)
+        rep.add_tlc(r)
+        rep.add_replay("arraymem", replay("arraymem", r.replay, "c19_mem%d" % i))
+    rep.add_nonvacuity(tlc_must_violate("c19_abmem", "MCArrayMem", "MCArrayMem_abCol.cfg", ["LastWriteWins"], timeout=600))
     for i, (cfg, expected) in enumerate(SABOTAGE):
         rep.add_nonvacuity(tlc_must_violate("c19_ab%d" % i, "MCArrayApi", cfg, expected, timeout=600))
     return rep
